@@ -109,6 +109,8 @@ check("C05", "scans: exactly the live keys, once, in order, within bounds", [
     ob("VerifC05_TxScanOverlay", "pkg/engine", "committed state (each key absent / in the memtable / flushed) + an open read-write transaction with 0-2 buffered puts/deletes: full scan, range scan, Seek(t) and SeekToLast inside the transaction = live keys with the transaction's writes overlaid, once each, ascending, latest values",
        "2 keys", "3 keys", q={"budget_s": 300}, t={"budget_s": 900}),
     ob("VerifC11_SeekAcrossBlocks", "pkg/sstable", "the SSTable iterator under a range scan's lower bound: Seek(t) on a table of two data blocks lands on the smallest key >= t (also when t falls between the blocks), Next* yields the rest once, in order", "2 blocks", q={"budget_s": 300}),
+    ob("VerifC05_ScanDuringFlush", "pkg/engine/storage", "a full or range scan (created and run to its end) racing the flush of sealed memtables (the body of the background flush goroutine) on an engine with a 1-byte memtable, after two puts and optionally an overwrite/delete (thorough: part of the data already in SSTables; a concurrent writer of another key): wherever the tables are when the scan is created (sealed in memory, being written out, registered as SSTable) it yields exactly the live keys that existed before it started, once, ascending, latest values",
+       "2 threads, 3 write shapes x {full, range}, concrete keys, symbolic values, preemption bound 1", "3 threads (writer of another key), data partly flushed before, preemption bound 1", q={"preempt": 1, "budget_s": 300}, t={"preempt": 1, "budget_s": 1200}, no_validate=True),
     ob("VerifC05_EngineScan", "pkg/engine/storage", "storage.Manager full and range scans after a symbolic program", "<=3 steps, 3 keys, MemTableSize in {1, default}", "<=4 steps", t={}),
 ], [SIMFS, CLOCK, HASH, BLOOM, RAND, LOG, TIERA], [])
 
